@@ -68,7 +68,8 @@ theorem handshake_timeout_cuts : step (step .handshaking .hsTimer) .serveDone = 
 /-- Obligation on the regenerated shape of tlsHandshakeWithTimeout: the handshake runs under
 context.WithTimeout(server.ctx, TLSHandshakeTimeout) unless the timeout is zero. -/
 theorem handshake_timeout_enforced : Gen.Lifecycle.handshakeWithTimeout =
-    ["ifserver.TLSHandshakeTimeout==0{returntlsConn.HandshakeContext(server.ctx)}",
+    ["iferr:=server.ctx.Err();err!=nil{returnerr}",
+     "ifserver.TLSHandshakeTimeout==0{returntlsConn.HandshakeContext(server.ctx)}",
      "ctx,cancel:=context.WithTimeout(server.ctx,server.TLSHandshakeTimeout)",
      "defercancel()", "returntlsConn.HandshakeContext(ctx)"] := by rfl
 
